@@ -99,3 +99,40 @@ def parse_pdata(raw):
 
 def encoded_command_set(msg):
     return dsutils.encode(msg.command_set, True, True)
+
+
+class _NoThreadDul(StubDul):
+    """stands in for DULServiceProvider while the real association constructors run"""
+    def __init__(self, store_in_file=None, get_file_cb=None, dul_socket=None, max_pdu_length=65536):
+        StubDul.__init__(self)
+        self.max_pdu_length = max_pdu_length
+        self.dul_socket = dul_socket
+
+    def stop(self):
+        return True
+
+    def kill(self):
+        pass
+
+
+def real_acceptor(ae, max_pdu_length=16384):
+    """an AssociationAcceptor built by its real __init__ (attribute initialisation is the code's own);
+    only the provider thread and the socketserver plumbing are stubbed out"""
+    from six.moves import socketserver
+    saved = (ap.dulprovider.DULServiceProvider, socketserver.StreamRequestHandler.__init__)
+    ap.dulprovider.DULServiceProvider = _NoThreadDul
+    socketserver.StreamRequestHandler.__init__ = lambda self, *a, **k: None
+    try:
+        return ap.AssociationAcceptor(None, ('peer', 0), ae, max_pdu_length)
+    finally:
+        ap.dulprovider.DULServiceProvider, socketserver.StreamRequestHandler.__init__ = saved
+
+
+def real_requester(ae, remote_ae, max_pdu_length=None):
+    """an AssociationRequester built by its real __init__, provider thread stubbed out"""
+    saved = ap.dulprovider.DULServiceProvider
+    ap.dulprovider.DULServiceProvider = _NoThreadDul
+    try:
+        return ap.AssociationRequester(ae, ae.max_pdu_length if max_pdu_length is None else max_pdu_length, remote_ae)
+    finally:
+        ap.dulprovider.DULServiceProvider = saved
